@@ -3,8 +3,9 @@ C12 — The font's glyph order follows glyph creation, deletion and renaming.
 
 Property theorems about M-GlyphOrder (`DefconModel/GlyphOrder.lean`, the executable model of
 `Font.glyphOrder`, `Font.updateGlyphOrder`, the font's three layer callbacks and the layer
-operations that trigger them).  Specification-side vocabulary is in `Spec/GlyphOrder.lean`, helper
-lemmas in `Lemmas/GlyphOrder.lean`.
+operations that trigger them, the layer-set operations, and the notification centre's hold / release
+/ disable / enable for a layer).  Specification-side vocabulary is in `Spec/GlyphOrder.lean`, helper
+lemmas in `Lemmas/GlyphOrder.lean` and `Lemmas/GlyphOrderHeld.lean`.
 
 How the quantifier of the property is met.  A *start font* `f0` is ANY well-formed font (`WF`:
 layer names unique, every layer observed — what `Font()`, `Font(path)` and deserialisation
@@ -12,8 +13,15 @@ establish) with ANY content and ANY value under the lib key: absent, empty, part
 superset, even with duplicates.  A *history* is ANY `ops : List Op`.  The per-operation theorems
 are stated at the state `run f0 ops` reached by an arbitrary history; the whole-history theorems
 are by induction over `ops`.  There are no size bounds anywhere.
+
+Histories may hold, release, disable and enable the notifications of any layer (sections 9-11).  A
+sentence of the property about ONE operation is about the moment the font learns of it: the
+per-operation theorems of sections 2-4 therefore ask that nothing is held or disabled on the layer at
+that moment (`Undisturbed`), and section 10 says what holds at the release of a hold, with respect
+to the state at the release.  The whole-history theorems of sections 5-7 hold for every history,
+holds included.
 -/
-import DefconModel.Lemmas.GlyphOrder
+import DefconModel.Lemmas.GlyphOrderHeld
 
 namespace DefconModel.Props.C12
 open DefconModel DefconModel.GlyphOrder
@@ -59,9 +67,10 @@ theorem new_font_wf :
     WF { layers := [("public.default", { glyphs := [], observed := true })], lib := none } :=
   ⟨by simp [AL.keys], by simp⟩
 
-/-- Whatever the history — glyph operations, order assignments, new layers, deleted layers — the
-font still observes every one of its layers (a layer made by `newLayer` is observed from its
-creation on) and layer names stay unique.  So every later theorem applies after any history. -/
+/-- Whatever the history — glyph operations, order assignments, new, deleted, renamed, reordered
+layers, a new default layer, holds and releases — the font still observes every one of its layers (a
+layer made by `newLayer` is observed from its creation on) and layer names stay unique.  So every
+later theorem applies after any history. -/
 theorem all_layers_observed (f0 : Font) (h0 : WF f0) (ops : List Op) : WF (run f0 ops) :=
   wf_run h0 ops
 
@@ -70,11 +79,12 @@ example : (run fx hx).layers.map (fun kl => (kl.1, kl.2.observed)) =
 
 /-! ## 2. Creation -/
 
-/-- After any history: creating a glyph `g` with `newGlyph` in any existing layer succeeds, the
-layer has the glyph, `g` is in the order afterwards, and the order is the old one with `g`
-appended at the end if — and only if — it was absent (otherwise exactly the old order). -/
+/-- After any history: creating a glyph `g` with `newGlyph` in any existing layer whose
+notifications are not held or disabled at that moment succeeds, the layer has the glyph, `g` is in
+the order afterwards, and the order is the old one with `g` appended at the end if — and only if —
+it was absent (otherwise exactly the old order). -/
 theorem created_in_order (f0 : Font) (h0 : WF f0) (ops : List Op) (L : String) (g : Name)
-    (hL : HasLayer (run f0 ops) L) :
+    (hL : HasLayer (run f0 ops) L) (hq : Undisturbed (run f0 ops) L) :
     (step (run f0 ops) (.newGlyph L g)).2 = .ok ∧
     HasGlyph (step (run f0 ops) (.newGlyph L g)).1 L g ∧
     g ∈ glyphOrder (step (run f0 ops) (.newGlyph L g)).1 ∧
@@ -83,25 +93,37 @@ theorem created_in_order (f0 : Font) (h0 : WF f0) (ops : List Op) (L : String) (
        else glyphOrder (run f0 ops) ++ [g]) := by
   obtain ⟨l, hget⟩ := hL
   have hw := wf_run h0 ops
-  obtain ⟨h1, h2, h3⟩ := newGlyph_spec hw hget g
+  obtain ⟨hh, hd⟩ := hq.of_get hget
+  obtain ⟨h1, h2, h3⟩ := newGlyph_spec hw hget hh hd g
   refine ⟨h1, ?_, ?_, h3⟩
   · refine ⟨{ l with glyphs := addName l.glyphs g }, ?_, mem_addName.mpr (Or.inr rfl)⟩
     simp only [step]; rw [h2, get?_setLayer, if_pos rfl]
   · simp only [step]; rw [h3]; exact mem_appendIfAbsent.mpr (Or.inr rfl)
 
-/-- The same for `insertGlyph(source, name=g)`: the copy's name enters the order exactly like a
-new glyph's (the held `Layer.GlyphAdded` reaches the font when the hold is released). -/
+/-- The same for `insertGlyph(source, name=g)` with its real bracket (hold the layer, `newGlyph`,
+copy, release): on a layer on which nothing is held, disabled or queued the bracket's own hold is
+the only one, its release delivers the one `Layer.GlyphAdded`, and the copy's name enters the order
+exactly like a new glyph's — the whole operation equals `newGlyph`. -/
 theorem inserted_in_order (f0 : Font) (h0 : WF f0) (ops : List Op) (L : String) (g : Name)
-    (hL : HasLayer (run f0 ops) L) :
+    (hL : CalmLayer (run f0 ops) L) :
+    step (run f0 ops) (.insertGlyph L g) = step (run f0 ops) (.newGlyph L g) ∧
     (step (run f0 ops) (.insertGlyph L g)).2 = .ok ∧
     HasGlyph (step (run f0 ops) (.insertGlyph L g)).1 L g ∧
     g ∈ glyphOrder (step (run f0 ops) (.insertGlyph L g)).1 ∧
     glyphOrder (step (run f0 ops) (.insertGlyph L g)).1 =
       (if g ∈ glyphOrder (run f0 ops) then glyphOrder (run f0 ops)
-       else glyphOrder (run f0 ops) ++ [g]) :=
-  created_in_order f0 h0 ops L g hL
+       else glyphOrder (run f0 ops) ++ [g]) := by
+  obtain ⟨l, hget, hc⟩ := hL
+  have e : step (run f0 ops) (.insertGlyph L g) = step (run f0 ops) (.newGlyph L g) := by
+    simp only [step]; exact insertGlyph_calm hget hc g
+  have hq : Undisturbed (run f0 ops) L := by
+    unfold Undisturbed; rw [hget]; exact ⟨hc.1, hc.2.1⟩
+  rw [e]
+  exact ⟨rfl, created_in_order f0 h0 ops L g ⟨l, hget⟩ hq⟩
 
 example : HasLayer (run fx hx) "bg" := ⟨{ glyphs := ["c"], observed := true }, by decide⟩
+example : Undisturbed (run fx hx) "bg" := by decide
+example : CalmLayer (run fx hx) "bg" := ⟨{ glyphs := ["c"], observed := true }, by decide, by decide⟩
 example : glyphOrder (step (run fx hx) (.newGlyph "bg" "a")).1 = ["d", "x", "c", "e", "a"] := by decide
 example : glyphOrder (step (run fx hx) (.newGlyph "bg" "x")).1 = ["d", "x", "c", "e"] := by decide
 
@@ -117,7 +139,7 @@ from that layer; whether the order changes is decided by the state AFTER the del
 does when `Layer.GlyphDeleted` is delivered: if some layer still has a glyph called `g` the order is
 untouched; if none has, the first occurrence of `g` is removed (`List.erase`) and nothing else. -/
 theorem deleted_leaves_iff_gone (f0 : Font) (h0 : WF f0) (ops : List Op) (L : String) (g : Name)
-    (hg : HasGlyph (run f0 ops) L g) :
+    (hg : HasGlyph (run f0 ops) L g) (hq : Undisturbed (run f0 ops) L) :
     (step (run f0 ops) (.delGlyph L g)).2 = .ok ∧
     ¬ HasGlyph (step (run f0 ops) (.delGlyph L g)).1 L g ∧
     (Exists (step (run f0 ops) (.delGlyph L g)).1 g →
@@ -126,7 +148,8 @@ theorem deleted_leaves_iff_gone (f0 : Font) (h0 : WF f0) (ops : List Op) (L : St
       glyphOrder (step (run f0 ops) (.delGlyph L g)).1 = (glyphOrder (run f0 ops)).erase g) := by
   obtain ⟨l, hget, hm⟩ := hg
   have hw := wf_run h0 ops
-  obtain ⟨h1, h2, b, hb, h3⟩ := delGlyph_spec hw hget hm
+  obtain ⟨hh, hd⟩ := hq.of_get hget
+  obtain ⟨h1, h2, b, hb, h3⟩ := delGlyph_spec hw hget hh hd hm
   have hex : Exists (step (run f0 ops) (.delGlyph L g)).1 g ↔ ExistsElsewhere (run f0 ops) L g := by
     simp only [step]; rw [exists_congr h2, exists_setLayer]; simp [mem_removeName]
   refine ⟨h1, ?_, ?_, ?_⟩
@@ -148,20 +171,21 @@ theorem deleted_leaves_iff_gone (f0 : Font) (h0 : WF f0) (ops : List Op) (L : St
 /-- "Still has" is evaluated after the glyph left its own layer: the name survives in the order
 exactly when a layer OTHER than the one deleted from has a glyph of that name. -/
 theorem deleted_still_exists_iff_elsewhere (f0 : Font) (h0 : WF f0) (ops : List Op) (L : String)
-    (g : Name) (hg : HasGlyph (run f0 ops) L g) :
+    (g : Name) (hg : HasGlyph (run f0 ops) L g) (hq : Undisturbed (run f0 ops) L) :
     Exists (step (run f0 ops) (.delGlyph L g)).1 g ↔ ExistsElsewhere (run f0 ops) L g := by
   obtain ⟨l, hget, hm⟩ := hg
-  obtain ⟨_, h2, _⟩ := delGlyph_spec (wf_run h0 ops) hget hm
+  obtain ⟨hh, hd⟩ := hq.of_get hget
+  obtain ⟨_, h2, _⟩ := delGlyph_spec (wf_run h0 ops) hget hh hd hm
   simp only [step]; rw [exists_congr h2, exists_setLayer]; simp [mem_removeName]
 
 /-- The iff of the title, for a name listed once (every order without duplicates): after deleting
 `g` from `L`, the name is out of the order if and only if no layer has a glyph called `g` any more. -/
 theorem deleted_name_leaves_iff_gone (f0 : Font) (h0 : WF f0) (ops : List Op) (L : String) (g : Name)
-    (hg : HasGlyph (run f0 ops) L g) (hin : g ∈ glyphOrder (run f0 ops))
-    (hone : (glyphOrder (run f0 ops)).count g ≤ 1) :
+    (hg : HasGlyph (run f0 ops) L g) (hq : Undisturbed (run f0 ops) L)
+    (hin : g ∈ glyphOrder (run f0 ops)) (hone : (glyphOrder (run f0 ops)).count g ≤ 1) :
     g ∉ glyphOrder (step (run f0 ops) (.delGlyph L g)).1 ↔
       ¬ Exists (step (run f0 ops) (.delGlyph L g)).1 g := by
-  obtain ⟨_, _, hkeep, hgone⟩ := deleted_leaves_iff_gone f0 h0 ops L g hg
+  obtain ⟨_, _, hkeep, hgone⟩ := deleted_leaves_iff_gone f0 h0 ops L g hg hq
   constructor
   · intro hout he
     rw [hkeep he] at hout
@@ -192,7 +216,7 @@ where "the old name must stay" is evaluated after the rename (some layer still h
 * old name gone and listed, `new` already listed → `old` removed, `new` keeps its place;
 * old name gone and not listed → `new` appended unless already listed. -/
 theorem rename_order (f0 : Font) (h0 : WF f0) (ops : List Op) (L : String) (old new : Name)
-    (hg : HasGlyph (run f0 ops) L old) (hne : old ≠ new) :
+    (hg : HasGlyph (run f0 ops) L old) (hq : Undisturbed (run f0 ops) L) (hne : old ≠ new) :
     (step (run f0 ops) (.rename L old new)).2 = .ok ∧
     HasGlyph (step (run f0 ops) (.rename L old new)).1 L new ∧
     ¬ HasGlyph (step (run f0 ops) (.rename L old new)).1 L old ∧
@@ -202,7 +226,8 @@ theorem rename_order (f0 : Font) (h0 : WF f0) (ops : List Op) (L : String) (old 
         specRename (glyphOrder (run f0 ops)) old new oldStays := by
   obtain ⟨l, hget, hm⟩ := hg
   have hw := wf_run h0 ops
-  obtain ⟨h1, h2, b, hb, h3⟩ := rename_spec hw hget hm hne
+  obtain ⟨hh, hd⟩ := hq.of_get hget
+  obtain ⟨h1, h2, b, hb, h3⟩ := rename_spec hw hget hh hd hm hne
   have hex : Exists (step (run f0 ops) (.rename L old new)).1 old ↔ ExistsElsewhere (run f0 ops) L old := by
     simp only [step]; rw [exists_congr h2, exists_setLayer]; simp [mem_addName, mem_removeName, hne]
   refine ⟨h1, ?_, ?_, ?_, b, hb.trans hex.symm, h3⟩
@@ -218,17 +243,19 @@ theorem rename_order (f0 : Font) (h0 : WF f0) (ops : List Op) (L : String) (old 
 /-- "The old name must stay" is evaluated after the glyph left its old name in its own layer: it
 holds exactly when a layer OTHER than the one renamed in has a glyph called `old`. -/
 theorem renamed_old_stays_iff_elsewhere (f0 : Font) (h0 : WF f0) (ops : List Op) (L : String)
-    (old new : Name) (hg : HasGlyph (run f0 ops) L old) (hne : old ≠ new) :
+    (old new : Name) (hg : HasGlyph (run f0 ops) L old) (hq : Undisturbed (run f0 ops) L)
+    (hne : old ≠ new) :
     Exists (step (run f0 ops) (.rename L old new)).1 old ↔ ExistsElsewhere (run f0 ops) L old := by
   obtain ⟨l, hget, hm⟩ := hg
-  obtain ⟨_, h2, _⟩ := rename_spec (wf_run h0 ops) hget hm hne
+  obtain ⟨hh, hd⟩ := hq.of_get hget
+  obtain ⟨_, h2, _⟩ := rename_spec (wf_run h0 ops) hget hh hd hm hne
   simp only [step]; rw [exists_congr h2, exists_setLayer]; simp [mem_addName, mem_removeName, hne]
 
 /-- The position clause: when the old name is gone from every layer, was listed, and the new name
 was not listed, the new name stands at the index of the (first) old name, the length is unchanged
 and every other index holds what it held. -/
 theorem rename_takes_position (f0 : Font) (h0 : WF f0) (ops : List Op) (L : String) (old new : Name)
-    (hg : HasGlyph (run f0 ops) L old) (hne : old ≠ new)
+    (hg : HasGlyph (run f0 ops) L old) (hq : Undisturbed (run f0 ops) L) (hne : old ≠ new)
     (hgone : ¬ Exists (step (run f0 ops) (.rename L old new)).1 old)
     (hold : old ∈ glyphOrder (run f0 ops)) (hnew : new ∉ glyphOrder (run f0 ops)) :
     ∃ i, i < (glyphOrder (run f0 ops)).length ∧
@@ -238,7 +265,7 @@ theorem rename_takes_position (f0 : Font) (h0 : WF f0) (ops : List Op) (L : Stri
       (glyphOrder (step (run f0 ops) (.rename L old new)).1)[i]? = some new ∧
       (glyphOrder (step (run f0 ops) (.rename L old new)).1).length = (glyphOrder (run f0 ops)).length ∧
       ∀ j, j ≠ i → (glyphOrder (step (run f0 ops) (.rename L old new)).1)[j]? = (glyphOrder (run f0 ops))[j]? := by
-  obtain ⟨_, _, _, _, b, hb, ho⟩ := rename_order f0 h0 ops L old new hg hne
+  obtain ⟨_, _, _, _, b, hb, ho⟩ := rename_order f0 h0 ops L old new hg hq hne
   have hbf : b = false := by
     cases b with
     | false => rfl
@@ -259,22 +286,22 @@ theorem rename_takes_position (f0 : Font) (h0 : WF f0) (ops : List Op) (L : Stri
 /-- "…or is appended when the old name must stay": if after the rename some layer still has a glyph
 called `old`, the old name is not touched and `new` is appended at the end unless already listed. -/
 theorem rename_appended_when_old_stays (f0 : Font) (h0 : WF f0) (ops : List Op) (L : String)
-    (old new : Name) (hg : HasGlyph (run f0 ops) L old) (hne : old ≠ new)
+    (old new : Name) (hg : HasGlyph (run f0 ops) L old) (hq : Undisturbed (run f0 ops) L) (hne : old ≠ new)
     (hstay : Exists (step (run f0 ops) (.rename L old new)).1 old) :
     glyphOrder (step (run f0 ops) (.rename L old new)).1 =
       (if new ∈ glyphOrder (run f0 ops) then glyphOrder (run f0 ops)
        else glyphOrder (run f0 ops) ++ [new]) := by
-  obtain ⟨_, _, _, _, b, hb, ho⟩ := rename_order f0 h0 ops L old new hg hne
+  obtain ⟨_, _, _, _, b, hb, ho⟩ := rename_order f0 h0 ops L old new hg hq hne
   rw [ho, hb.mpr hstay]; rfl
 
 /-- Renaming onto a name that is already in the order (the old name gone and listed): no duplicate
 is made — the old entry is removed and the new name stays where it already was. -/
 theorem rename_onto_listed_name (f0 : Font) (h0 : WF f0) (ops : List Op) (L : String)
-    (old new : Name) (hg : HasGlyph (run f0 ops) L old) (hne : old ≠ new)
+    (old new : Name) (hg : HasGlyph (run f0 ops) L old) (hq : Undisturbed (run f0 ops) L) (hne : old ≠ new)
     (hgone : ¬ Exists (step (run f0 ops) (.rename L old new)).1 old)
     (hold : old ∈ glyphOrder (run f0 ops)) (hnew : new ∈ glyphOrder (run f0 ops)) :
     glyphOrder (step (run f0 ops) (.rename L old new)).1 = (glyphOrder (run f0 ops)).erase old := by
-  obtain ⟨_, _, _, _, b, hb, ho⟩ := rename_order f0 h0 ops L old new hg hne
+  obtain ⟨_, _, _, _, b, hb, ho⟩ := rename_order f0 h0 ops L old new hg hq hne
   have hbf : b = false := by
     cases b with
     | false => rfl
@@ -285,23 +312,23 @@ theorem rename_onto_listed_name (f0 : Font) (h0 : WF f0) (ops : List Op) (L : St
 /-- Renaming a glyph whose old name was not in the order (partial orders): the new name is appended
 unless already listed; nothing is removed. -/
 theorem rename_unlisted_old_name (f0 : Font) (h0 : WF f0) (ops : List Op) (L : String)
-    (old new : Name) (hg : HasGlyph (run f0 ops) L old) (hne : old ≠ new)
+    (old new : Name) (hg : HasGlyph (run f0 ops) L old) (hq : Undisturbed (run f0 ops) L) (hne : old ≠ new)
     (hold : old ∉ glyphOrder (run f0 ops)) :
     glyphOrder (step (run f0 ops) (.rename L old new)).1 =
       (if new ∈ glyphOrder (run f0 ops) then glyphOrder (run f0 ops)
        else glyphOrder (run f0 ops) ++ [new]) := by
-  obtain ⟨_, _, _, _, b, hb, ho⟩ := rename_order f0 h0 ops L old new hg hne
+  obtain ⟨_, _, _, _, b, hb, ho⟩ := rename_order f0 h0 ops L old new hg hq hne
   rw [ho]
   cases b <;> simp [specRename, hold, appendIfAbsent]
 
 /-- With an order that lists the old name once, the old name is out of the order after the rename
 if and only if no layer has a glyph of that name any more. -/
 theorem renamed_old_name_leaves_iff_gone (f0 : Font) (h0 : WF f0) (ops : List Op) (L : String)
-    (old new : Name) (hg : HasGlyph (run f0 ops) L old) (hne : old ≠ new)
+    (old new : Name) (hg : HasGlyph (run f0 ops) L old) (hq : Undisturbed (run f0 ops) L) (hne : old ≠ new)
     (hin : old ∈ glyphOrder (run f0 ops)) (hone : (glyphOrder (run f0 ops)).count old ≤ 1) :
     old ∉ glyphOrder (step (run f0 ops) (.rename L old new)).1 ↔
       ¬ Exists (step (run f0 ops) (.rename L old new)).1 old := by
-  obtain ⟨_, _, _, _, b, hb, ho⟩ := rename_order f0 h0 ops L old new hg hne
+  obtain ⟨_, _, _, _, b, hb, ho⟩ := rename_order f0 h0 ops L old new hg hq hne
   constructor
   · intro hout he
     rw [ho, hb.mpr he] at hout
@@ -340,25 +367,21 @@ theorem layer_ops_keep_order (f : Font) (name : String) :
     glyphOrder (step f (.delLayer name)).1 = glyphOrder f := by
   constructor
   · simp only [step, newLayer]; split <;> rfl
-  · simp only [step, delLayer]; split <;> rfl
+  · simp only [step, delLayer]
+    cases AL.get? f.layers name with
+    | none => rfl
+    | some l => simp only; split <;> rfl
 
 /-! ## 5. No new duplicates -/
 
 /-- For every start font (well formed or not), every history in which the order is only changed by
-the font's own updates (any glyph operations in any layers, new and deleted layers — no direct
-assignment of the order or the lib key) and every name: the name occurs at most once afterwards, or
-no more often than it did at the start. -/
+the font's own updates (any glyph operations in any layers or through the font, new, deleted,
+renamed, reordered layers, holds, releases, disables — no direct assignment of the order or the lib
+key) and every name: the name occurs at most once afterwards, or no more often than it did at the
+start. -/
 theorem no_new_duplicates (f0 : Font) (ops : List Op) (hops : ∀ op ∈ ops, op.isUpdate = true) (n : Name) :
-    (glyphOrder (run f0 ops)).count n ≤ max 1 ((glyphOrder f0).count n) := by
-  induction ops generalizing f0 with
-  | nil => simp only [run]; omega
-  | cons op r ih =>
-    simp only [run]
-    have h1 := ih (step f0 op).1 (fun o ho => hops o (List.mem_cons_of_mem _ ho))
-    obtain ⟨a, rm, _, _, hs⟩ := step_order_spec f0 op (hops op (List.mem_cons_self ..))
-    have h2 := count_specUpdate_le (glyphOrder f0) a rm n
-    rw [← hs] at h2
-    omega
+    (glyphOrder (run f0 ops)).count n ≤ max 1 ((glyphOrder f0).count n) :=
+  (safe_run (fun _ => True) f0 ops hops (fun _ _ _ _ => trivial) (fun _ _ => trivial)).upd.count_le n
 
 /-- In particular an order without duplicates never gets one. -/
 theorem nodup_preserved (f0 : Font) (ops : List Op) (hops : ∀ op ∈ ops, op.isUpdate = true)
@@ -374,43 +397,40 @@ example : (glyphOrder fx).Nodup := by decide
 -- a start order that already has a duplicate keeps at most that many
 example : glyphOrder (run { fx with lib := some ["a", "b", "a"] } [.newGlyph "fg" "a", .delGlyph "bg" "c"])
     = ["a", "b", "a"] := by decide
+-- a history with a held block in which notifications are coalesced
+example : ∀ op ∈ [Op.holdLayer "fg", .delGlyph "fg" "b", .newGlyph "fg" "b", .delGlyph "fg" "b",
+    .releaseLayer "fg"], op.isUpdate = true := by decide
 
 /-! ## 6. Untouched names keep their relative order -/
 
-/-- For every start font, every such history and every set `T` of names that contains all names the
-history's operations speak about: erasing the names of `T` from the order gives the same list before
-and after — names the history does not touch are neither added, dropped, duplicated nor reordered.
-(`p` is the indicator of "not in `T`".) -/
+/-- For every start font, every such history (holds and releases included) and every set `T` of
+names that contains all names the history's operations speak about — and the names of the
+notifications that were already held at the start, if any: erasing the names of `T` from the order
+gives the same list before and after — names the history does not touch are neither added, dropped,
+duplicated nor reordered.  (`p` is the indicator of "not in `T`".) -/
 theorem others_keep_relative_order (f0 : Font) (ops : List Op) (hops : ∀ op ∈ ops, op.isUpdate = true)
-    (p : Name → Bool) (hp : ∀ op ∈ ops, ∀ x ∈ op.touched, p x = false) :
-    (glyphOrder (run f0 ops)).filter p = (glyphOrder f0).filter p := by
-  induction ops generalizing f0 with
-  | nil => rfl
-  | cons op r ih =>
-    simp only [run]
-    rw [ih (step f0 op).1 (fun o ho => hops o (List.mem_cons_of_mem _ ho))
-      (fun o ho => hp o (List.mem_cons_of_mem _ ho))]
-    obtain ⟨a, rm, ha, hr, hs⟩ := step_order_spec f0 op (hops op (List.mem_cons_self ..))
-    rw [hs]
-    exact filter_specUpdate p _ a rm
-      (fun x hx => hp op (List.mem_cons_self ..) x (ha x hx))
-      (fun x hx => hp op (List.mem_cons_self ..) x (hr x hx))
+    (p : Name → Bool) (hp : ∀ op ∈ ops, ∀ x ∈ op.touched, p x = false)
+    (hq : ∀ x ∈ queuedNames f0, p x = false) :
+    (glyphOrder (run f0 ops)).filter p = (glyphOrder f0).filter p :=
+  (safe_run (fun x => p x = false) f0 ops hops hp hq).upd.filter p (fun _ h => h)
 
 /-- The same with the touched set given as a list. -/
 theorem others_keep_relative_order_list (f0 : Font) (ops : List Op)
     (hops : ∀ op ∈ ops, op.isUpdate = true) (T : List Name)
-    (hT : ∀ op ∈ ops, ∀ x ∈ op.touched, x ∈ T) :
+    (hT : ∀ op ∈ ops, ∀ x ∈ op.touched, x ∈ T) (hq : ∀ x ∈ queuedNames f0, x ∈ T) :
     (glyphOrder (run f0 ops)).filter (fun n => !T.contains n) =
       (glyphOrder f0).filter (fun n => !T.contains n) :=
   others_keep_relative_order f0 ops hops _ (fun op ho x hx => by simp [hT op ho x hx])
+    (fun x hx => by simp [hq x hx])
 
 example : (glyphOrder (run fx hx)).filter (fun n => !["a", "b", "d", "e"].contains n) = ["x", "c"] ∧
     (glyphOrder fx).filter (fun n => !["a", "b", "d", "e"].contains n) = ["x", "c"] := by decide
+example : queuedNames fx = [] := by decide
 
 /-! ## 7. Stored in and read from the font lib -/
 
 /-- The glyph order IS what the lib holds under `public.glyphOrder` (empty when the key is absent) —
-after every history, including direct assignments to the lib. -/
+after every history, including direct assignments to the lib, holds and releases. -/
 theorem stored_in_lib (f0 : Font) (ops : List Op) :
     glyphOrder (run f0 ops) = ((run f0 ops).lib).getD [] := rfl
 
@@ -459,40 +479,48 @@ example : (step fx (.setOrder (some ["q", "a"]))).1.lib = some ["q", "a"] := by 
 
 /-! ## 8. The order follows the glyph set over whole histories -/
 
-/-- No history of font-made updates ever makes a name *missing*: a glyph name that exists at the
-end and is not in the order existed at the start and was not in the order at the start.  (Every name
-created or renamed-to during the history is in the order for as long as a glyph of that name
-exists.) -/
-theorem missing_never_appears (f0 : Font) (h0 : WF f0) (ops : List Op)
-    (hops : ∀ op ∈ ops, op.isUpdate = true) (n : Name)
+/-- No history of font-made updates in which no layer's notifications are held or disabled ever
+makes a name *missing*: a glyph name that exists at the end and is not in the order existed at the
+start and was not in the order at the start.  (Every name created or renamed-to during the history
+is in the order for as long as a glyph of that name exists.)  Layers may be added, deleted — the
+default layer too —, renamed, reordered, the default layer re-assigned, glyphs created and deleted
+through the font. -/
+theorem missing_never_appears (f0 : Font) (h0 : WF f0) (hc : Calm f0) (ops : List Op)
+    (hops : ∀ op ∈ ops, op.isUpdate = true) (hs : ∀ op ∈ ops, op.isSuspend = false) (n : Name)
     (hex : Exists (run f0 ops) n) (hno : n ∉ glyphOrder (run f0 ops)) :
     Exists f0 n ∧ n ∉ glyphOrder f0 := by
   induction ops generalizing f0 with
   | nil => exact ⟨hex, hno⟩
   | cons op r ih =>
     simp only [run] at hex hno
-    have h1 := ih (step f0 op).1 (wf_step h0 op) (fun o ho => hops o (List.mem_cons_of_mem _ ho)) hex hno
-    exact missing_step h0 op (hops op (List.mem_cons_self ..)) n h1.1 h1.2
+    have hs1 := hs op (List.mem_cons_self ..)
+    have h1 := ih (step f0 op).1 (wf_step h0 op) (calm_step h0 hc op hs1)
+      (fun o ho => hops o (List.mem_cons_of_mem _ ho)) (fun o ho => hs o (List.mem_cons_of_mem _ ho)) hex hno
+    exact missing_step h0 hc op (hops op (List.mem_cons_self ..)) hs1 n h1.1 h1.2
 
 /-- Complete and superset orders stay complete: if every existing glyph name is listed at the start,
 every existing glyph name is listed after any history of font-made updates. -/
-theorem complete_preserved (f0 : Font) (h0 : WF f0) (ops : List Op)
-    (hops : ∀ op ∈ ops, op.isUpdate = true) (hc : Complete f0) : Complete (run f0 ops) := by
+theorem complete_preserved (f0 : Font) (h0 : WF f0) (hq : Calm f0) (ops : List Op)
+    (hops : ∀ op ∈ ops, op.isUpdate = true) (hs : ∀ op ∈ ops, op.isSuspend = false)
+    (hc : Complete f0) : Complete (run f0 ops) := by
   intro n hex
   by_cases hin : n ∈ glyphOrder (run f0 ops)
   · exact hin
-  · have := missing_never_appears f0 h0 ops hops n hex hin
+  · have := missing_never_appears f0 h0 hq ops hops hs n hex hin
     exact absurd (hc n this.1) this.2
 
-/-- No history of glyph operations makes a name *stale* when the start order has no duplicates: a
+/-- No history of glyph operations (through layers or through the font) in which nothing is held or
+disabled makes a name *stale* when the start order has no duplicates: a
 name listed at the end although no layer has such a glyph was already listed and glyph-less at the
 start (superset entries stay; none is created). -/
-theorem stale_never_appears (f0 : Font) (h0 : WF f0) (ops : List Op)
+theorem stale_never_appears (f0 : Font) (h0 : WF f0) (hc : Calm f0) (ops : List Op)
     (hops : ∀ op ∈ ops, op.isGlyphOp = true) (hnd : (glyphOrder f0).Nodup) (n : Name)
     (hin : n ∈ glyphOrder (run f0 ops)) (hnex : ¬ Exists (run f0 ops) n) :
     n ∈ glyphOrder f0 ∧ ¬ Exists f0 n := by
   have upd : ∀ op : Op, op.isGlyphOp = true → op.isUpdate = true := by
     intro op h; cases op <;> simp_all [Op.isGlyphOp, Op.isUpdate]
+  have nosus : ∀ op : Op, op.isGlyphOp = true → op.isSuspend = false := by
+    intro op h; cases op <;> simp_all [Op.isGlyphOp, Op.isSuspend]
   induction ops generalizing f0 with
   | nil => exact ⟨hin, hnex⟩
   | cons op r ih =>
@@ -500,26 +528,562 @@ theorem stale_never_appears (f0 : Font) (h0 : WF f0) (ops : List Op)
     have hop := hops op (List.mem_cons_self ..)
     have hnd1 : (glyphOrder (step f0 op).1).Nodup :=
       nodup_preserved f0 [op] (by intro o ho; simp at ho; subst ho; exact upd _ hop) hnd
-    have h1 := ih (step f0 op).1 (wf_step h0 op) (fun o ho => hops o (List.mem_cons_of_mem _ ho))
-      hnd1 hin hnex
-    exact stale_step h0 hnd op hop n h1.1 h1.2
+    have h1 := ih (step f0 op).1 (wf_step h0 op) (calm_step h0 hc op (nosus _ hop))
+      (fun o ho => hops o (List.mem_cons_of_mem _ ho)) hnd1 hin hnex
+    exact stale_step h0 hc hnd op hop n h1.1 h1.2
 
 /-- An exact order (each existing glyph name listed once, nothing else) stays exact under every
-history of create / insert / delete / rename operations across the layers. -/
-theorem exact_preserved (f0 : Font) (h0 : WF f0) (ops : List Op)
+history of create / insert / delete / rename operations across the layers and through the font, as
+long as nothing is held or disabled. -/
+theorem exact_preserved (f0 : Font) (h0 : WF f0) (hc : Calm f0) (ops : List Op)
     (hops : ∀ op ∈ ops, op.isGlyphOp = true) (he : Exact f0) : Exact (run f0 ops) := by
   have upd : ∀ op ∈ ops, op.isUpdate = true := by
     intro op ho
     have := hops op ho
     cases op <;> simp_all [Op.isGlyphOp, Op.isUpdate]
-  refine ⟨nodup_preserved f0 ops upd he.nodup, complete_preserved f0 h0 ops upd he.complete, ?_⟩
+  have nosus : ∀ op ∈ ops, op.isSuspend = false := by
+    intro op ho
+    have := hops op ho
+    cases op <;> simp_all [Op.isGlyphOp, Op.isSuspend]
+  refine ⟨nodup_preserved f0 ops upd he.nodup, complete_preserved f0 h0 hc ops upd nosus he.complete, ?_⟩
   intro n hin
   by_cases hex : Exists (run f0 ops) n
   · exact hex
-  · have := stale_never_appears f0 h0 ops hops he.nodup n hin hex
+  · have := stale_never_appears f0 h0 hc ops hops he.nodup n hin hex
     exact absurd (he.sound n this.1) this.2
 
 example : ∀ op ∈ [Op.delGlyph "fg" "a", .rename "fg" "b" "d", .insertGlyph "bg" "e"], op.isGlyphOp = true := by
+  decide
+example : Calm fx := by unfold Calm; decide
+example : ∀ op ∈ hx, op.isSuspend = false := by decide
+
+/-! ## 9. Layer-set operations, the default layer, operations through the font -/
+
+/-- two layers, `fg` the default one; a complete order -/
+def fy : Font :=
+  { layers := [("fg", { glyphs := ["a", "b"], observed := true }),
+               ("bg", { glyphs := ["a", "c"], observed := true })],
+    lib := some ["a", "b", "c"], default := some "fg" }
+
+example : WF fy := ⟨by decide, by decide⟩
+example : Calm fy := by unfold Calm; decide
+
+/-- Renaming a layer, re-assigning the layer order or the default layer, holding or disabling a
+layer's notifications, holding or releasing the font's own notifications: none of them changes the
+order (the lib is not touched; `releaseLayer` is the one operation of this family that can — section
+10). -/
+theorem layer_set_ops_keep_order (f : Font) :
+    (∀ o n, glyphOrder (step f (.renameLayer o n)).1 = glyphOrder f) ∧
+    (∀ ns, glyphOrder (step f (.setLayerOrder ns)).1 = glyphOrder f) ∧
+    (∀ n, glyphOrder (step f (.setDefault n)).1 = glyphOrder f) ∧
+    (∀ L, glyphOrder (step f (.holdLayer L)).1 = glyphOrder f) ∧
+    (∀ L, glyphOrder (step f (.disableLayer L)).1 = glyphOrder f) ∧
+    (∀ L, glyphOrder (step f (.enableLayer L)).1 = glyphOrder f) ∧
+    glyphOrder (step f .holdFont).1 = glyphOrder f ∧
+    glyphOrder (step f .releaseFont).1 = glyphOrder f := by
+  refine ⟨?_, ?_, ?_, ?_, ?_, ?_, rfl, ?_⟩
+  · intro o n
+    simp only [step, renameLayer]
+    cases AL.get? f.layers o with
+    | none => rfl
+    | some l => simp only; split <;> (try rfl); split <;> (try rfl); split <;> rfl
+  · intro ns
+    simp only [step, setLayerOrder]
+    split <;> (try rfl); split <;> rfl
+  · intro n; simp only [step, setDefault]; split <;> rfl
+  · intro L; simp only [step, holdLayer]; cases AL.get? f.layers L <;> rfl
+  · intro L; simp only [step, disableLayer]; cases AL.get? f.layers L <;> rfl
+  · intro L
+    simp only [step, enableLayer]
+    cases AL.get? f.layers L with
+    | none => rfl
+    | some l => simp only; split <;> rfl
+  · simp only [step, releaseFont]; split <;> rfl
+
+example : (step fy (.renameLayer "bg" "back")).1.layers.map (·.1) = ["fg", "back"] := by decide
+example : (step fy (.setLayerOrder ["bg", "fg"])).1.layers.map (·.1) = ["bg", "fg"] := by decide
+example : (step fy (.setLayerOrder ["bg", "bg"])).2 = .err .assertionError := by decide
+
+/-- A renamed layer keeps its glyphs under the new name and stays the default layer if it was: for a
+well-formed font, a layer `old` on which nothing is held or disabled and a fresh name `new`, the
+renaming succeeds, `font.layers[new]` has exactly the glyphs `font.layers[old]` had, no layer is
+called `old` any more, and which glyph names exist is unchanged. -/
+theorem layer_rename_keeps_glyphs (f : Font) (hw : WF f) (old new : String) (l : Layer)
+    (hget : AL.get? f.layers old = some l) (hne : old ≠ new) (hfree : AL.contains f.layers new = false)
+    (hq : l.held = 0 ∧ l.disabled = 0) :
+    (step f (.renameLayer old new)).2 = .ok ∧
+    AL.get? (step f (.renameLayer old new)).1.layers new = some l ∧
+    AL.get? (step f (.renameLayer old new)).1.layers old = none ∧
+    (∀ K, K ≠ old → K ≠ new →
+      AL.get? (step f (.renameLayer old new)).1.layers K = AL.get? f.layers K) ∧
+    (step f (.renameLayer old new)).1.default = (if f.default = some old then some new else f.default) := by
+  have hnew : new ∉ AL.keys f.layers := not_mem_keys_of_contains_false (by simp [hfree])
+  have hne' : ¬ new = old := fun e => hne e.symm
+  have e : step f (.renameLayer old new) =
+      ({ f with layers := renameKey f.layers old new,
+                default := if f.default = some old then some new else f.default }, .ok) := by
+    simp only [step, renameLayer, hget, hne, hfree, if_false, hq.1, hq.2]
+    simp
+  rw [e]
+  refine ⟨rfl, ?_, ?_, ?_, rfl⟩
+  · simp only; rw [get?_renameKey old new hw.names hnew, if_pos rfl, hget]
+  · simp only; rw [get?_renameKey old new hw.names hnew]; simp [hne]
+  · intro K h1 h2
+    simp only; rw [get?_renameKey old new hw.names hnew, if_neg h2, if_neg h1]
+
+example : (step fy (.renameLayer "fg" "front")).1.default = some "front" := by decide
+
+/-- `font.newGlyph`, `font.insertGlyph`, `del font[name]` ARE the operations of the default layer
+while that layer is one of the font's layers. -/
+theorem font_ops_are_default_layer_ops (f : Font) (L : String) (h : f.default = some L) (g : Name) :
+    step f (.fontNewGlyph g) = step f (.newGlyph L g) ∧
+    step f (.fontInsertGlyph g) = step f (.insertGlyph L g) ∧
+    step f (.fontDelGlyph g) = step f (.delGlyph L g) := by
+  simp only [step, fontNewGlyph, fontInsertGlyph, fontDelGlyph, h, and_self]
+
+/-- The library lets the default layer be deleted (`LayerSet.__delitem__` does not refuse):
+`defaultLayer` then is a layer that no longer belongs to the font, and nothing the font-level glyph
+operations do on it reaches a layer of the font or the order — until another layer is made the
+default one. -/
+theorem default_layer_deleted (f : Font) (L : String) (l : Layer) (hd : f.default = some L)
+    (hget : AL.get? f.layers L = some l) :
+    (step f (.delLayer L)).2 = .ok ∧
+    (step f (.delLayer L)).1.default = none ∧
+    fontKeys (step f (.delLayer L)).1 = l.glyphs ∧
+    glyphOrder (step f (.delLayer L)).1 = glyphOrder f := by
+  simp only [step, delLayer, hget, hd, if_true, fontKeys, and_self]
+  trivial
+
+/-- … the font-level glyph operations then leave every layer of the font and the lib alone. -/
+theorem detached_default_ops_silent (f : Font) (h : f.default = none) (g : Name) :
+    ((step f (.fontNewGlyph g)).1.layers = f.layers ∧ (step f (.fontNewGlyph g)).1.lib = f.lib) ∧
+    ((step f (.fontInsertGlyph g)).1.layers = f.layers ∧ (step f (.fontInsertGlyph g)).1.lib = f.lib) ∧
+    ((step f (.fontDelGlyph g)).1.layers = f.layers ∧ (step f (.fontDelGlyph g)).1.lib = f.lib) := by
+  simp only [step, fontNewGlyph, fontInsertGlyph, fontDelGlyph, h, and_self, true_and]
+  split <;> exact ⟨rfl, rfl⟩
+
+example : glyphOrder (run fy [.delLayer "fg", .fontNewGlyph "q", .setDefault "bg", .fontNewGlyph "r"]) =
+    ["a", "b", "c", "r"] := by decide
+example : fontKeys (run fy [.delLayer "fg", .fontNewGlyph "q"]) = ["a", "b", "q"] := by decide
+
+/-- Creating a glyph over an existing name with `newGlyph` in one layer while another layer keeps a
+glyph of that name (or not): the name is in the order already, so nothing is appended and nothing
+moves — a corollary of `created_in_order`. -/
+theorem recreated_keeps_place (f0 : Font) (h0 : WF f0) (ops : List Op) (L : String) (g : Name)
+    (hL : HasLayer (run f0 ops) L) (hq : Undisturbed (run f0 ops) L)
+    (hin : g ∈ glyphOrder (run f0 ops)) :
+    glyphOrder (step (run f0 ops) (.newGlyph L g)).1 = glyphOrder (run f0 ops) := by
+  rw [(created_in_order f0 h0 ops L g hL hq).2.2.2, if_pos hin]
+
+example : glyphOrder (step fy (.fontNewGlyph "a")).1 = ["a", "b", "c"] := by decide
+
+/-! ## 10. User-level holds: deferred delivery -/
+
+/-- While a layer's notifications are held or disabled, glyph operations on it change its names and
+nothing else the font knows: the order and the lib stay as they are. -/
+theorem suspended_ops_are_silent (f : Font) (L : String) (l : Layer)
+    (hget : AL.get? f.layers L = some l) (g g2 : Name) :
+    (l.held ≠ 0 ∧ l.disabled = 0 →
+      (step f (.newGlyph L g)).1.lib = f.lib ∧ (step f (.insertGlyph L g)).1.lib = f.lib ∧
+      (step f (.delGlyph L g)).1.lib = f.lib ∧ (step f (.rename L g g2)).1.lib = f.lib) ∧
+    (l.disabled ≠ 0 →
+      (step f (.newGlyph L g)).1.lib = f.lib ∧
+      (step f (.delGlyph L g)).1.lib = f.lib ∧ (step f (.rename L g g2)).1.lib = f.lib) := by
+  constructor
+  · rintro ⟨hh, hd⟩
+    refine ⟨?_, ?_, ?_, ?_⟩
+    · simp only [step]; rw [newGlyph_held hget hh hd]; rfl
+    · simp only [step]; rw [insertGlyph_held hget hh hd, newGlyph_held hget hh hd]; rfl
+    · simp only [step]
+      by_cases hm : g ∈ l.glyphs
+      · rw [delGlyph_held hget hh hd hm]; rfl
+      · simp [delGlyph, hget, hm]
+    · simp only [step]
+      by_cases hm : g ∈ l.glyphs
+      · by_cases hne : g = g2
+        · subst hne; simp [rename, hget, hm]
+        · rw [rename_held hget hh hd hm hne]; rfl
+      · simp [rename, hget, hm]
+  · intro hd
+    refine ⟨?_, ?_, ?_⟩
+    · simp only [step]; rw [newGlyph_disabled hget hd]; rfl
+    · simp only [step]
+      by_cases hm : g ∈ l.glyphs
+      · rw [delGlyph_disabled hget hd hm]; rfl
+      · simp [delGlyph, hget, hm]
+    · simp only [step]
+      by_cases hm : g ∈ l.glyphs
+      · by_cases hne : g = g2
+        · subst hne; simp [rename, hget, hm]
+        · rw [rename_disabled hget hd hm hne]; rfl
+      · simp [rename, hget, hm]
+
+example : (step (step fy (.holdLayer "fg")).1 (.newGlyph "fg" "z")).1.lib = fy.lib ∧
+    layerGlyphs (step (step fy (.holdLayer "fg")).1 (.newGlyph "fg" "z")).1 "fg" = ["a", "b", "z"] := by decide
+example : (step (step fy (.disableLayer "fg")).1 (.delGlyph "fg" "b")).1.lib = fy.lib := by decide
+
+/-- one layer `fg` with three glyphs next to a layer `bg` that shares `c`; a complete order -/
+def fh : Font :=
+  { layers := [("fg", { glyphs := ["a", "b", "c"], observed := true }),
+               ("bg", { glyphs := ["c"], observed := true })],
+    lib := some ["a", "b", "c"], default := some "fg" }
+
+example : WF fh := ⟨by decide, by decide⟩
+example : CalmLayer fh "fg" := ⟨{ glyphs := ["a", "b", "c"], observed := true }, by decide, by decide⟩
+
+/-- The release of a hold, in any well-formed font (every state a history reaches is one:
+`all_layers_observed`), whatever built the queue: when the count drops from 1 to 0 on a layer that is
+not disabled, the held `Layer.GlyphAdded / GlyphDeleted / GlyphNameChanged` are delivered in the
+order in which they were queued, and EVERY callback evaluates "does any layer still have the name" on
+the layers as they are at the release (`anyLayerHas f`, the same for the whole queue) — not as they
+were when the notification was posted.  The layer's names are not touched, its queue is empty and
+its hold count 0 afterwards. -/
+theorem release_delivers_queue (f : Font) (hw : WF f) (L : String) (l : Layer)
+    (hget : AL.get? f.layers L = some l) (hh : l.held = 1) (hd : l.disabled = 0) :
+    (step f (.releaseLayer L)).2 = .ok ∧
+    (step f (.releaseLayer L)).1.layers = (setLayer f L { l with held := 0, queue := [] }).layers ∧
+    glyphOrder (step f (.releaseLayer L)).1 = specDeliverAll (anyLayerHas f) (glyphOrder f) l.queue :=
+  releaseLayer_last hw hget hh hd
+
+example : AL.get? (run fh [.holdLayer "fg", .newGlyph "fg" "z", .delGlyph "fg" "a"]).layers "fg" =
+    some { glyphs := ["b", "c", "z"], observed := true, held := 1, queue := [.added "z", .deleted "a"] } := by decide
+example : glyphOrder (step (run fh [.holdLayer "fg", .newGlyph "fg" "z", .delGlyph "fg" "a"]) (.releaseLayer "fg")).1 =
+    ["b", "c", "z"] := by decide
+
+/-- A release that is not the last one (`held > 1`: nested holds, or `insertGlyph`'s own bracket inside
+a user-level hold) delivers nothing; a release on a layer that is disabled at that moment drops the
+queue; a release with nothing held raises KeyError. -/
+theorem release_inner_or_disabled (f : Font) (L : String) (l : Layer)
+    (hget : AL.get? f.layers L = some l) :
+    (l.held = 0 → step f (.releaseLayer L) = (f, .err .keyError)) ∧
+    (2 ≤ l.held → (step f (.releaseLayer L)).1 = setLayer f L { l with held := l.held - 1 }) ∧
+    (l.held = 1 → l.disabled ≠ 0 →
+      (step f (.releaseLayer L)).1 = setLayer f L { l with held := 0, queue := [] }) := by
+  refine ⟨?_, ?_, ?_⟩
+  · intro h; simp [step, releaseLayer, hget, h]
+  · intro h
+    have h0 : ¬ l.held = 0 := by omega
+    have h1 : ¬ l.held = 1 := by omega
+    simp [step, releaseLayer, hget, h0, h1]
+  · intro h1 hd; exact releaseLayer_last_disabled hget h1 hd
+
+example : glyphOrder (run fh [.holdLayer "fg", .holdLayer "fg", .newGlyph "fg" "z", .releaseLayer "fg"]) =
+    ["a", "b", "c"] := by decide
+example : glyphOrder (run fh [.holdLayer "fg", .holdLayer "fg", .newGlyph "fg" "z", .releaseLayer "fg",
+    .releaseLayer "fg"]) = ["a", "b", "c", "z"] := by decide
+
+/-- `held_block_order`.  In any well-formed font, take a layer `L` on which nothing is held, disabled
+or queued, hold its notifications, run ANY block of glyph operations on it (create, insert, delete,
+rename, with any names, also failing ones), release.  Then, with "exists" meaning "some layer has a
+glyph of that name AT THE RELEASE":
+* during the block the font hears nothing: just before the release the order is the old one;
+* the layer's names are what the operations made of them, every other layer is untouched, and the
+  layer is calm again;
+* the order after the release is the old order after the delivery of the block's notifications
+  (coalesced by the centre), each evaluated against the state at the release;
+* created: every name the layer has at the release is in the order — unless the layer had it before
+  the block and it was missing from the order then (partial start orders);
+* deleted: a name leaves the order only if no layer has it at the release;
+* the names that were in the order and exist at the release stand exactly as they stood (none
+  dropped, moved or duplicated).
+(No new duplicates and the relative order of untouched names are sections 5 and 6: they hold for
+every history, this one included.) -/
+theorem held_block_order (f : Font) (hw : WF f) (L : String) (l : Layer)
+    (hget : AL.get? f.layers L = some l) (hc : l.calm) (block : List Op)
+    (hb : ∀ op ∈ block, op.onLayer L = true) :
+    glyphOrder (run f (.holdLayer L :: block)) = glyphOrder f ∧
+    (heldRun f L block).layers = (setLayer f L { l with glyphs := (blockRun (l.glyphs, []) block).1 }).layers ∧
+    glyphOrder (heldRun f L block) =
+      specDeliverAll (anyLayerHas (heldRun f L block)) (glyphOrder f)
+        (coalesce [] (blockRun (l.glyphs, []) block).2) ∧
+    (∀ g, HasGlyph (heldRun f L block) L g →
+      g ∈ glyphOrder (heldRun f L block) ∨ (g ∈ l.glyphs ∧ g ∉ glyphOrder f)) ∧
+    (∀ n, n ∈ glyphOrder f → n ∉ glyphOrder (heldRun f L block) → ¬ Exists (heldRun f L block) n) ∧
+    (∀ p : Name → Bool, (∀ x, p x = true → Exists (heldRun f L block) x ∧ x ∈ glyphOrder f) →
+      (glyphOrder (heldRun f L block)).filter p = (glyphOrder f).filter p) := by
+  obtain ⟨h1, h2, h3⟩ := heldRun_spec hw hget hc block hb
+  have hwH : WF (heldRun f L block) := wf_run hw _
+  have hex : ∀ n, anyLayerHas (heldRun f L block) n = true ↔ Exists (heldRun f L block) n :=
+    fun n => anyLayerHas_iff hwH.names n
+  refine ⟨by rw [h1]; rfl, h2, h3, ?_, ?_, ?_⟩
+  · rintro g ⟨l', hget', hm⟩
+    have hl' : l' = { l with glyphs := (blockRun (l.glyphs, []) block).1 } := by
+      rw [h2, get?_setLayer, if_pos rfl] at hget'; exact (Option.some.inj hget').symm
+    have hgB : g ∈ (blockRun (l.glyphs, []) block).1 := by rw [hl'] at hm; exact hm
+    have hexg : anyLayerHas (heldRun f L block) g = true := (hex g).mpr ⟨L, l', hget', hm⟩
+    rcases blockRun_names (l.glyphs, []) block hgB with hin | ⟨nt, hnt, hi⟩
+    · by_cases ho : g ∈ glyphOrder f
+      · left; rw [h3]; exact mem_deliverAll_keep hexg _ ho
+      · right; exact ⟨hin, ho⟩
+    · left; rw [h3]
+      exact mem_deliverAll_intro hexg _ ⟨nt, mem_coalesce.mpr (Or.inr hnt), hi⟩
+  · intro n hin hout hexn
+    apply hout
+    rw [h3]
+    exact mem_deliverAll_keep ((hex n).mpr hexn) _ hin
+  · intro p hp
+    rw [h3]
+    exact filter_deliverAll_kept _ _ _ p (fun x hx => ⟨(hex x).mpr (hp x hx).1, (hp x hx).2⟩)
+
+example : ∀ op ∈ [Op.delGlyph "fg" "a", .newGlyph "fg" "z", .rename "fg" "b" "y", .delGlyph "fg" "z"],
+    op.onLayer "fg" = true := by decide
+example : glyphOrder (heldRun fh "fg" [.delGlyph "fg" "a", .newGlyph "fg" "z", .rename "fg" "b" "y",
+    .delGlyph "fg" "z"]) = ["y", "c"] := by decide
+example : blockRun (["a", "b", "c"], []) [.delGlyph "fg" "a", .newGlyph "fg" "z", .rename "fg" "b" "y",
+    .delGlyph "fg" "z"] = (["c", "y"], [.deleted "a", .added "z", .renamed "b" "y", .deleted "z"]) := by
+  decide
+
+/-- `rename_chain_under_hold`: a glyph renamed `a → b → c` inside one hold.  If `a` is listed, `b` and
+`c` are not, the names are different and no other layer has a glyph called `a` or `b`, then after the
+release `c` stands exactly where `a` stood (the way-point `b` took the place at the first delivery and
+handed it on at the second), the length is unchanged and no other index is touched — the outcome of
+the two renamings done without a hold. -/
+theorem rename_chain_under_hold (f : Font) (hw : WF f) (L : String) (l : Layer)
+    (hget : AL.get? f.layers L = some l) (hc : l.calm) (a b c : Name)
+    (ha : a ∈ l.glyphs) (hab : a ≠ b) (hbc : b ≠ c) (hac : a ≠ c)
+    (hea : ¬ ExistsElsewhere f L a) (heb : ¬ ExistsElsewhere f L b)
+    (hoa : a ∈ glyphOrder f) (hob : b ∉ glyphOrder f) (hoc : c ∉ glyphOrder f) :
+    glyphOrder (heldRun f L [.rename L a b, .rename L b c]) = replaceFirst (glyphOrder f) a c ∧
+    ∃ i, indexOf? (glyphOrder f) a = some i ∧
+      glyphOrder (heldRun f L [.rename L a b, .rename L b c]) = (glyphOrder f).set i c := by
+  have hb : ∀ op ∈ [Op.rename L a b, .rename L b c], op.onLayer L = true := by
+    intro op ho; simp at ho; rcases ho with rfl | rfl <;> simp [Op.onLayer]
+  obtain ⟨_, h2, h3, _⟩ := held_block_order f hw L l hget hc _ hb
+  have hbin : b ∈ addName (removeName l.glyphs a) b := mem_addName.mpr (Or.inr rfl)
+  have hrun : blockRun (l.glyphs, []) [.rename L a b, .rename L b c] =
+      (addName (removeName (addName (removeName l.glyphs a) b) b) c, [.renamed a b, .renamed b c]) := by
+    simp [blockRun, blockStep, ha, hab, hbc, hbin]
+  have hwH : WF (heldRun f L [.rename L a b, .rename L b c]) := wf_run hw _
+  have gone : ∀ x, x ≠ c → (x = a ∨ x = b) → ¬ ExistsElsewhere f L x →
+      anyLayerHas (heldRun f L [.rename L a b, .rename L b c]) x = false := by
+    intro x hxc hx hel
+    rw [anyLayerHas_false_iff hwH.names, exists_congr h2, exists_setLayer, hrun]
+    simp only [not_or]
+    refine ⟨hel, ?_⟩
+    simp only [mem_addName, mem_removeName]
+    rcases hx with rfl | rfl
+    · simp [hab, hxc]
+    · simp [hxc]
+  have ga := gone a hac (Or.inl rfl) hea
+  have gb := gone b hbc (Or.inr rfl) heb
+  have hq : coalesce [] [Note.renamed a b, Note.renamed b c] = [.renamed a b, .renamed b c] := by
+    have : Note.renamed b c ≠ Note.renamed a b := by
+      intro e; injection e with e1 _; exact hab e1.symm
+    simp [coalesce, enqueue, this]
+  have hord : glyphOrder (heldRun f L [.rename L a b, .rename L b c]) = replaceFirst (glyphOrder f) a c := by
+    rw [h3, hrun]
+    simp only [hq, specDeliverAll, List.foldl_cons, List.foldl_nil, specDeliver, deliverArgs, ga, gb,
+      Bool.false_eq_true, if_false]
+    have hba : ¬ b = a := fun e => hab e.symm
+    have hcb : ¬ c = b := fun e => hbc e.symm
+    have h1 : specUpdate (glyphOrder f) (some b) (some a) = replaceFirst (glyphOrder f) a b := by
+      simp [specUpdate, hoa, hab, hob]
+    rw [h1]
+    have hb1 : b ∈ replaceFirst (glyphOrder f) a b := mem_replaceFirst_new hoa
+    have hc1 : c ∉ replaceFirst (glyphOrder f) a b := by
+      intro hm
+      rcases mem_replaceFirst hm with h | h
+      · exact hoc h
+      · exact hbc h.symm
+    have h2' : specUpdate (replaceFirst (glyphOrder f) a b) (some c) (some b) =
+        replaceFirst (replaceFirst (glyphOrder f) a b) b c := by
+      simp [specUpdate, hb1, hbc, hc1]
+    rw [h2', replaceFirst_replaceFirst hob]
+  refine ⟨hord, ?_⟩
+  cases hi : indexOf? (glyphOrder f) a with
+  | none => exact absurd hoa (indexOf?_eq_none.mp hi)
+  | some i => exact ⟨i, rfl, by rw [hord, set_indexOf hi]⟩
+
+example : glyphOrder (heldRun fh "fg" [.rename "fg" "a" "x", .rename "fg" "x" "y"]) = ["y", "b", "c"] := by
+  decide
+example : glyphOrder (run fh [.rename "fg" "a" "x", .rename "fg" "x" "y"]) = ["y", "b", "c"] := by decide
+example : ¬ ExistsElsewhere fh "fg" "a" := by
+  rintro ⟨L2, l2, hne, hget, hm⟩
+  simp only [fh, AL.get?_cons, AL.get?_nil] at hget
+  split at hget
+  · rename_i h; exact hne h.symm
+  · split at hget
+    · cases hget; simp at hm
+    · cases hget
+
+/-! ### Where deferred delivery differs from immediate delivery -/
+
+/-- FULL statement (the "if" direction of the deletion clause, read at the release): a name that a
+held block deleted or renamed away, that no layer has at the release and that was listed at most
+once, is not in the order after the release. -/
+def HeldGoneLeaves (f : Font) (L : String) (block : List Op) (n : Name) : Prop :=
+  (∃ nt ∈ (blockRun (layerGlyphs f L, []) block).2, nt.removes n = true) →
+  anyLayerHas (heldRun f L block) n = false →
+  (glyphOrder f).count n ≤ 1 →
+  n ∉ glyphOrder (heldRun f L block)
+
+instance (f : Font) (L : String) (block : List Op) (n : Name) : Decidable (HeldGoneLeaves f L block n) := by
+  unfold HeldGoneLeaves; exact inferInstance
+
+/-- Known finding F116 (genuine defect, recorded): it FAILS.  Delete `b`, create `b` again, delete it
+again under one hold: the second `Layer.GlyphDeleted(b)` equals the first and is not queued again, so
+the queue is `[GlyphDeleted b, GlyphAdded b]`; at the release no layer has `b`: the first removes the
+name and the second appends it.  `b` ends up in the order although the glyph was deleted and no layer
+has it (without the hold the order would be `["a", "c"]`). -/
+theorem held_gone_leaves_violated :
+    ¬ HeldGoneLeaves fh "fg" [.delGlyph "fg" "b", .newGlyph "fg" "b", .delGlyph "fg" "b"] "b" := by decide
+
+example : glyphOrder (heldRun fh "fg" [.delGlyph "fg" "b", .newGlyph "fg" "b", .delGlyph "fg" "b"]) =
+    ["a", "c", "b"] := by decide
+example : glyphOrder (run fh [.delGlyph "fg" "b", .newGlyph "fg" "b", .delGlyph "fg" "b"]) = ["a", "c"] := by
+  decide
+-- the same through renaming there and back, and with a name that never was in the order
+example : glyphOrder (heldRun fh "fg" [.rename "fg" "a" "x", .rename "fg" "x" "a", .rename "fg" "a" "x"]) =
+    ["x", "b", "c", "a"] := by decide
+example : glyphOrder (heldRun fh "fg" [.newGlyph "fg" "q", .delGlyph "fg" "q", .newGlyph "fg" "q",
+    .delGlyph "fg" "q"]) = ["a", "b", "c"] := by decide
+example : glyphOrder (heldRun { fh with lib := some ["a", "c"] } "fg"
+    [.delGlyph "fg" "b", .newGlyph "fg" "b", .delGlyph "fg" "b"]) = ["a", "c", "b"] := by decide
+
+/-- What is proved of the code as it is: the statement holds whenever the block posts no notification
+twice (nothing is coalesced) — then the LAST thing the queue says about the name is that it is gone,
+and nothing after that brings it back.  For every well-formed font, calm layer, block and name. -/
+theorem held_gone_leaves_partial (f : Font) (hw : WF f) (L : String) (l : Layer)
+    (hget : AL.get? f.layers L = some l) (hc : l.calm) (block : List Op)
+    (hb : ∀ op ∈ block, op.onLayer L = true)
+    (hnd : (blockRun (l.glyphs, []) block).2.Nodup) (n : Name) :
+    HeldGoneLeaves f L block n := by
+  intro hrem hgone hcount
+  have hlg : layerGlyphs f L = l.glyphs := by simp [layerGlyphs, hget]
+  rw [hlg] at hrem
+  obtain ⟨_, h2, h3, _⟩ := held_block_order f hw L l hget hc block hb
+  have hwH : WF (heldRun f L block) := wf_run hw _
+  rw [h3, coalesce_of_nodup (by simpa using hnd)]
+  simp only [List.nil_append]
+  refine not_mem_deliverAll_gone hgone hcount ?_
+  -- the last word of the posted notifications about `n`
+  have hsr := saysRight_run (saysRight_start l.glyphs) block
+  cases hls : lastSays (blockRun (l.glyphs, []) block).2 n with
+  | none =>
+    obtain ⟨nt, hnt, hr⟩ := hrem
+    have := (lastSays_none_iff.mp hls nt hnt).2
+    rw [hr] at this; cases this
+  | some b =>
+    cases b with
+    | false => rfl
+    | true =>
+      exfalso
+      have hin : n ∈ (blockRun (l.glyphs, []) block).1 := (hsr n true hls).mpr rfl
+      have : Exists (heldRun f L block) n := by
+        rw [exists_congr h2, exists_setLayer]; exact Or.inr hin
+      rw [← anyLayerHas_iff hwH.names, hgone] at this
+      cases this
+
+example : (blockRun (["a", "b", "c"], []) [.delGlyph "fg" "b", .newGlyph "fg" "q", .rename "fg" "a" "b"]).2.Nodup := by
+  decide
+example : glyphOrder (heldRun fh "fg" [.delGlyph "fg" "b", .newGlyph "fg" "q", .rename "fg" "a" "b"]) =
+    ["b", "c", "q"] := by decide
+
+/-- Deferred evaluation makes the order DIFFER from the immediate one without contradicting the
+property.  The first way, for every well-formed font, calm layer `L` and glyph `a` of it: delete `a`
+and create it again inside one hold.  `GlyphDeleted(a)` is delivered when a layer has `a` again, so a
+listed name KEEPS ITS PLACE (an unlisted one is appended) — whereas without the hold, when no other
+layer has `a`, the name leaves at the deletion (`deleted_leaves_iff_gone`) and is appended at the end
+at the re-creation (`created_in_order`).  Both outcomes are what the property states for the state
+the callbacks saw. -/
+theorem held_recreate_keeps_place (f : Font) (hw : WF f) (L : String) (l : Layer)
+    (hget : AL.get? f.layers L = some l) (hc : l.calm) (a : Name) (ha : a ∈ l.glyphs) :
+    glyphOrder (heldRun f L [.delGlyph L a, .newGlyph L a]) =
+      (if a ∈ glyphOrder f then glyphOrder f else glyphOrder f ++ [a]) := by
+  have hb : ∀ op ∈ [Op.delGlyph L a, .newGlyph L a], op.onLayer L = true := by
+    intro op ho; simp at ho; rcases ho with rfl | rfl <;> simp [Op.onLayer]
+  obtain ⟨_, h2, h3, _⟩ := held_block_order f hw L l hget hc _ hb
+  have hrun : blockRun (l.glyphs, []) [.delGlyph L a, .newGlyph L a] =
+      (addName (removeName l.glyphs a) a, [.deleted a, .added a]) := by
+    simp [blockRun, blockStep, ha]
+  have hwH : WF (heldRun f L [.delGlyph L a, .newGlyph L a]) := wf_run hw _
+  have hex : anyLayerHas (heldRun f L [.delGlyph L a, .newGlyph L a]) a = true := by
+    rw [anyLayerHas_iff hwH.names, exists_congr h2, exists_setLayer, hrun]
+    exact Or.inr (mem_addName.mpr (Or.inr rfl))
+  have hq : coalesce [] [Note.deleted a, Note.added a] = [.deleted a, .added a] := by
+    simp [coalesce, enqueue]
+  rw [h3, hrun]
+  simp only [hq, specDeliverAll, List.foldl_cons, List.foldl_nil, specDeliver, deliverArgs, hex, if_true,
+    specUpdate, appendIfAbsent]
+
+-- the three ways, side by side (held / immediate)
+example : glyphOrder (heldRun fh "fg" [.delGlyph "fg" "a", .newGlyph "fg" "a"]) = ["a", "b", "c"] ∧
+    glyphOrder (run fh [.delGlyph "fg" "a", .newGlyph "fg" "a"]) = ["b", "c", "a"] := by decide
+-- rename `a` to `x`, create `a` again: immediately `x` takes `a`'s place and `a` is appended; under a hold the
+-- old name "must stay" at delivery time, so `a` keeps its place and `x` is appended
+example : glyphOrder (heldRun fh "fg" [.rename "fg" "a" "x", .newGlyph "fg" "a"]) = ["a", "b", "c", "x"] ∧
+    glyphOrder (run fh [.rename "fg" "a" "x", .newGlyph "fg" "a"]) = ["x", "b", "c", "a"] := by decide
+-- delete `a`, rename `b` to `a` (order b, c, a): immediately `a` leaves and then takes `b`'s place; under a hold
+-- `a` never leaves, keeps the place it has, and `b` is removed
+example :
+    glyphOrder (heldRun { fh with lib := some ["b", "c", "a"] } "fg" [.delGlyph "fg" "a", .rename "fg" "b" "a"]) =
+      ["c", "a"] ∧
+    glyphOrder (run { fh with lib := some ["b", "c", "a"] } [.delGlyph "fg" "a", .rename "fg" "b" "a"]) =
+      ["a", "c"] := by decide
+
+/-- … and these are the only two ways in which it can differ.  For a well-formed font, a calm layer and
+any block of glyph operations on it: if (1) the block posts no notification twice — nothing is
+coalesced — and (2) every callback of the run WITHOUT the hold got, about the name it asks about
+("does any layer still have it"), the answer that the state at the release gives, then the order after
+hold – block – release IS the order after the block alone, and so are the layers' names.  (Dropping
+(1): `held_gone_leaves_violated`; dropping (2): `held_recreate_keeps_place` and the examples after it.) -/
+theorem held_equals_immediate (f : Font) (hw : WF f) (L : String) (l : Layer)
+    (hget : AL.get? f.layers L = some l) (hc : l.calm) (block : List Op)
+    (hb : ∀ op ∈ block, op.onLayer L = true)
+    (hnd : (blockRun (l.glyphs, []) block).2.Nodup)
+    (ha : AnswersAs (anyLayerHas (heldRun f L block)) L f block) :
+    glyphOrder (heldRun f L block) = glyphOrder (run f block) ∧
+    ∀ K, layerGlyphs (heldRun f L block) K = layerGlyphs (run f block) K := by
+  obtain ⟨_, h2, h3, _⟩ := held_block_order f hw L l hget hc block hb
+  obtain ⟨i1, i2⟩ := immediate_as_deliverAll block hb hw hget hc ha
+  refine ⟨?_, ?_⟩
+  · rw [h3, i2, coalesce_of_nodup (by simpa using hnd)]
+    rfl
+  · intro K; unfold layerGlyphs; rw [h2, i1]
+
+example : AnswersAs (anyLayerHas (heldRun fh "fg" [.delGlyph "fg" "a", .newGlyph "fg" "z", .rename "fg" "b" "y"]))
+    "fg" fh [.delGlyph "fg" "a", .newGlyph "fg" "z", .rename "fg" "b" "y"] := by decide
+example : glyphOrder (heldRun fh "fg" [.delGlyph "fg" "a", .newGlyph "fg" "z", .rename "fg" "b" "y"]) =
+    ["y", "c", "z"] := by decide
+-- (2) fails for "delete a, create a again": the deletion's callback was told "gone", the release says "there"
+example : ¬ AnswersAs (anyLayerHas (heldRun fh "fg" [.delGlyph "fg" "a", .newGlyph "fg" "a"]))
+    "fg" fh [.delGlyph "fg" "a", .newGlyph "fg" "a"] := by decide
+
+/-- `disableNotifications()` … `enableNotifications()` around a block: the font is told nothing, at
+any time — the order after the block is the order before it, whatever was created, deleted or
+renamed (this is what disabling asks for; the property's sentences are not demanded of such a
+block), the layer's names follow the operations and the layer is calm again. -/
+theorem disabled_block_keeps_order (f : Font) (L : String) (l : Layer)
+    (hget : AL.get? f.layers L = some l) (hc : l.calm) (block : List Op)
+    (hb : ∀ op ∈ block, op.onLayer L = true) :
+    disabledRun f L block = setLayer f L { l with glyphs := (blockRun (l.glyphs, []) block).1 } ∧
+    glyphOrder (disabledRun f L block) = glyphOrder f := by
+  obtain ⟨hh, hd, hq⟩ := hc
+  obtain ⟨gl, ob, he, qu, di⟩ := l
+  simp only at hh hd hq
+  subst hh; subst hd; subst hq
+  have e1 : (step f (.disableLayer L)).1 =
+      setLayer f L { glyphs := gl, observed := ob, held := 0, queue := [], disabled := 1 } := by
+    simp only [step, disableLayer, hget]
+  have hget1 : AL.get? (setLayer f L { glyphs := gl, observed := ob, held := 0, queue := [], disabled := 1 }).layers L =
+      some { glyphs := gl, observed := ob, held := 0, queue := [], disabled := 1 } := by
+    rw [get?_setLayer, if_pos rfl]
+  have hrun := run_disabledBlock hget1 (by simp) rfl rfl block hb gl
+  simp only [setLayer_setLayer] at hrun
+  have e : disabledRun f L block =
+      setLayer f L { glyphs := (blockRun (gl, []) block).1, observed := ob, held := 0, queue := [], disabled := 0 } := by
+    unfold disabledRun
+    rw [show [Op.disableLayer L] ++ block ++ [Op.enableLayer L] = (Op.disableLayer L :: block) ++ [Op.enableLayer L] by simp,
+      run_append]
+    simp only [run]
+    rw [e1, hrun]
+    simp only [step, enableLayer]
+    rw [get?_setLayer, if_pos rfl]
+    simp only [Nat.one_ne_zero, if_false, setLayer_setLayer]
+  exact ⟨e, by rw [e]; rfl⟩
+
+example : glyphOrder (disabledRun fh "fg" [.delGlyph "fg" "a", .newGlyph "fg" "z"]) = ["a", "b", "c"] := by decide
+example : layerGlyphs (disabledRun fh "fg" [.delGlyph "fg" "a", .newGlyph "fg" "z"]) "fg" = ["b", "c", "z"] := by
   decide
 
 end DefconModel.Props.C12
